@@ -435,19 +435,22 @@ pub fn all_shapes(thorough: bool) -> Vec<Box<dyn Shape>> {
         v.push(cfgs::gl::circ(6));
         v.push(cfgs::kbzk::batch(vec![mulp, add, sub]));
         v.push(cfgs::kbzkh::batch(vec![fib]));
+        // a commitment round (preprocessed) shorter than the tallest trace: reduced query index
+        v.push(cfgs::bb::batch(vec![TAir::Add { rows: 16 }, TAir::Sub { rows: 8 }]));
+        v.push(cfgs::kbzkh::batch(vec![TAir::Add { rows: 32 }, TAir::Sub { rows: 8 }]));
     }
     if thorough {
         // larger instances: more FRI phases, wider traces, more tables rows, more quotient chunks
-        // (in the mixed batches the tallest table carries preprocessed columns: see `defect_shapes`)
         let mul_big = TAir::Mul { degree: 3, rows: 64, reps: 20, prep: true };
         let mul_tall = TAir::Mul { degree: 3, rows: 256, reps: 5, prep: true };
         let fib_big = TAir::Fib { rows: 256 };
         let fib32 = TAir::Fib { rows: 32 };
-        let add256 = TAir::Add { rows: 32 };
+        let add256 = TAir::Add { rows: 256 };
         let sub32 = TAir::Sub { rows: 32 };
         v.push(cfgs::bb::uni(mul_big));
         v.push(cfgs::bb::uni(fib_big));
-        v.push(cfgs::bb::batch(vec![mul_tall, add256, sub32, pv]));
+        v.push(cfgs::bb::batch(vec![mul_big, add256, sub32, pv]));
+        v.push(cfgs::kb::batch(vec![mul_tall, add256, sub32, pv]));
         v.push(cfgs::bb::circ(100));
         v.push(cfgs::kb::uni(fib_big));
         v.push(cfgs::kb::circ(100));
@@ -456,7 +459,7 @@ pub fn all_shapes(thorough: bool) -> Vec<Box<dyn Shape>> {
         v.push(cfgs::gl::uni(fib_big));
         v.push(cfgs::gl::batch(vec![mul_tall, add256, sub32, pv]));
         v.push(cfgs::gl::circ(100));
-        v.push(cfgs::kbzk::batch(vec![mul_tall, add256, fib32]));
+        v.push(cfgs::kbzk::batch(vec![mul_big, add256, fib32]));
         v.push(cfgs::kbzkh::batch(vec![mul_big, add256, sub32]));
     }
     v
@@ -464,15 +467,10 @@ pub fn all_shapes(thorough: bool) -> Vec<Box<dyn Shape>> {
 
 /// Shapes whose *honest* proof is already handled differently by the two verifiers on the pinned
 /// tree (reported by C01 as `completeness/<kind>/honest-proof..`); kept out of the sweeps:
-/// * uni-STARK over the hiding PCS (no integration test of the repository exercises it);
-/// * a batch whose preprocessed commitment round is shorter than the tallest trace (minimal form:
-///   Add with 16 rows and no preprocessed columns + Sub with 8 rows and one preprocessed column).
+/// * uni-STARK over the hiding PCS (no integration test of the repository exercises it).
 pub fn defect_shapes() -> Vec<Box<dyn Shape>> {
     use airs::TAir;
-    vec![
-        cfgs::kbzk::uni(TAir::Fib { rows: 8 }),
-        cfgs::bb::batch(vec![TAir::Add { rows: 16 }, TAir::Sub { rows: 8 }]),
-    ]
+    vec![cfgs::kbzk::uni(TAir::Fib { rows: 8 })]
 }
 
 /// Ad-hoc shape from a spec `cfg/kind/air,air,..` (airs: fibN addN subN pvN mulN mulnN; kind: uni|batch|circN).
